@@ -284,7 +284,7 @@ def n_reuse(first_env, second_env):
 
 def obligations(tier):
     thorough = tier == "thorough"
-    dom = [dict(hl=h, el=e) for h in range(0, (10 if thorough else 8)) for e in range(0, (8 if thorough else 6))]
+    dom = [dict(hl=h, el=e) for h in range(0, (12 if thorough else 8)) for e in range(0, (10 if thorough else 6))]
     dom += [dict(hl=h, el=e, source=s) for s in ("env", "ENV") for h in (1, 3) for e in (0, 1, 2, 3)]
     return [
         ChObligation("N-dom", "ch/c19_dom.py", "dom_rule", timeout_s=120, bounds="host <= 4, entry <= 3 characters over ALL of Unicode",
@@ -292,7 +292,7 @@ def obligations(tier):
         ChObligation("N-dom2", "ch/c19_dom.py", "dom_rule2", timeout_s=150, bounds="two-entry list: host <= 3, entries <= 2 characters, all of Unicode",
                      kernel=["_url._is_no_proxy_host"]),
         Obligation("N-dom-ascii", n_dom_ascii, dom, bounds="host of 0..%d and entry of 0..%d symbolic ASCII characters (look-alike suffixes included); no_proxy from the "
-                   "option, from no_proxy and from NO_PROXY" % (9 if thorough else 7, 7 if thorough else 5), must_cover=["exempt", "not-exempt"], budget_s=2400,
+                   "option, from no_proxy and from NO_PROXY" % (11 if thorough else 7, 9 if thorough else 5), must_cover=["exempt", "not-exempt"], budget_s=2400,
                    kernel=["_url._is_no_proxy_host"]),
         Obligation("N-cidr", n_cidr, [dict(p=p) for p in range(0, 33)], bounds="EVERY prefix length 0..32; address and (canonical) network 32 symbolic bits each",
                    must_cover=["cidr"], kernel=["_url._is_address_in_network", "_is_subnet_address", "_is_no_proxy_host"]),
